@@ -47,6 +47,23 @@ def showNode : Node → String
   | .and l r => s!"A({showNode l},{showNode r})"
   | .or l r => s!"O({showNode l},{showNode r})"
 
+def opText : Op → Bytes
+  | .with_ => [87,73,84,72] | .and_ => [65,78,68] | .or_ => [79,82] | .lparen => [40] | .rparen => [41] | .colon => [58] | .plus => [43]
+
+/-- `<role>:<value>` as the scan hook prints it -/
+def tokText : Tok → Bytes
+  | .op o => [111,112,58] ++ opText o
+  | .docRef d => [100,111,99,114,101,102,58] ++ d
+  | .licRef r => [108,105,99,114,101,102,58] ++ r
+  | .lic c => [108,105,99,58] ++ c
+  | .exc c => [101,120,99,58] ++ c
+
+/-- the tree as the parse hook prints it: `&(l,r)`, `|(l,r)`, canonical text of a term -/
+def treeText : Node → Bytes
+  | .and l r => [38,40] ++ treeText l ++ [44] ++ treeText r ++ [41]
+  | .or l r => [124,40] ++ treeText l ++ [44] ++ treeText r ++ [41]
+  | n => render n
+
 /-- abstract trees in prefix notation, comma separated: `&`, `|`, or a leaf number -/
 def readTree : Nat → List String → Option (Node × List String)
   | 0, _ => none
@@ -141,6 +158,21 @@ def handle (line : String) : String :=
     | .ok none, .error _ => "err"
     | .ok (some _), .error _ => "MISMATCH-G-accepts"
     | .ok none, .ok _ => "MISMATCH-G-rejects"
+  | ["Z", e] =>
+    -- token stream, for the scan hook: `<role>:<value>` per token, hex-encoded, comma separated
+    match scan (unhex e) with
+    | .error _ => "err"
+    | .ok ts => "ok " ++ hexList (ts.map tokText)
+  | ["Y", e] =>
+    -- parse tree in the hook's prefix form
+    match parse (unhex e) with
+    | .error _ => "err"
+    | .ok n => "ok " ++ hex (treeText n)
+  | ["A", e] =>
+    -- the expansion: alternatives separated by `;`, terms by `,` (hex of the canonical text)
+    match parse (unhex e) with
+    | .error _ => "err"
+    | .ok n => "ok " ++ ";".intercalate ((expand n).map (fun alt => hexList (alt.map render)))
   | ["K", e] =>
     let b := unhex e
     let toks := match scan b with | .ok ts => ts.length | .error _ => 0
